@@ -10,6 +10,7 @@ import (
 	"io"
 	"net"
 	"net/http"
+	"runtime"
 	"sync"
 	"sync/atomic"
 
@@ -161,9 +162,26 @@ func (w *pipeRW) WriteHeader(code int) {
 		close(w.ready)
 	})
 }
+
+// Write forwards b in pieces of at most 4 KiB (net/http's response buffer) and yields in between: like a
+// real http.ResponseWriter it does not make one Write atomic with respect to other goroutines writing to
+// the same response. Whoever shares a response between goroutines has to serialise the writes itself.
 func (w *pipeRW) Write(b []byte) (int, error) {
 	w.WriteHeader(http.StatusOK)
-	return w.pipe.Write(b)
+	total := 0
+	for {
+		k := min(4096, len(b))
+		n, err := w.pipe.Write(b[:k])
+		total += n
+		if err != nil {
+			return total, err
+		}
+		b = b[k:]
+		if len(b) == 0 {
+			return total, nil
+		}
+		runtime.Gosched()
+	}
 }
 func (w *pipeRW) Flush() { w.WriteHeader(http.StatusOK) }
 
